@@ -140,3 +140,21 @@ H_ENTRY(h_scalar_time) {
   vf_assert(ot == o4, "time field is the four-octet big-endian scalar");
   H_END();
 }
+
+// ---- RFC 4880 section 3.2: MPI = two-octet bit count (big-endian) + minimal big-endian magnitude
+H_ENTRY(h_mpi_roundtrip) {
+  unsigned long v = vf_nondet_u32() & 0xFFFFFF;           // values below 2^24 incl. 0 and leading-zero byte cases
+  gcry_mpi_t a = gcry_mpi_new(32); gcry_mpi_set_ui(a, v);
+  tmcg_openpgp_octets_t enc;
+  PGP::PacketMPIEncode(a, enc);
+  unsigned nbits = 0; for (unsigned long t = v; t; t >>= 1) ++nbits;
+  unsigned nbytes = (nbits + 7) / 8;
+  vf_assert(enc.size() == 2 + nbytes, "MPI length = 2 + ceil(bits/8)");
+  vf_assert(enc.size() >= 2 && enc[0] == (nbits >> 8) && enc[1] == (nbits & 0xFF), "MPI bit count, big-endian");
+  for (unsigned i = 0; i < nbytes && 2 + i < enc.size(); ++i) vf_assert(enc[2 + i] == ((v >> (8 * (nbytes - 1 - i))) & 0xFF), "MPI magnitude, big-endian, no leading zero octet");
+  gcry_mpi_t b = gcry_mpi_new(32);
+  size_t used = PGP::PacketMPIDecode(enc, b);
+  vf_assert(used == enc.size(), "decode consumes the whole MPI");
+  vf_assert(gcry_mpi_cmp(a, b) == 0, "PacketMPIDecode(PacketMPIEncode(x)) == x");
+  H_END();
+}
